@@ -64,6 +64,13 @@ def coerce(v, ty: Ty, st=None):
             return rec_make(ty, v.items)
         raise Unsupported(f"dict where {ty} expected")
     if isinstance(v, PyObj):
+        if v.o == ("emptyset",) and isinstance(ty, T.TSet):
+            return V(ty, z3.K(ty.elem.sort(), False))      # `set()` where a set of a declared type is expected (e.g. `return set()`)
+        if isinstance(v.o, tuple) and v.o and v.o[0] == "setlit" and isinstance(ty, T.TSet):
+            z = z3.K(ty.elem.sort(), False)                # `{a, b}` where a set of a declared type is expected
+            for it in v.o[1]:
+                z = z3.Store(z, coerce(it, ty.elem).z, True)
+            return V(ty, z)
         raise Unsupported(f"python object {v.o!r} where {ty} expected")
     if v.ty == ty:
         return v
@@ -183,12 +190,21 @@ def truthy(v):
         return z3.And(s.is_some(v.z), truthy(inner))
     if is_str(t) or isinstance(t, TList):
         return seq_len(v) > 0
-    if isinstance(t, (TRef, TEnum)):
+    if isinstance(t, TEnum):
+        return z3.BoolVal(True)
+    if isinstance(t, TRef):
+        hook = REC_TRUTHY.get(t.cls)
+        if hook:
+            return hook(v)
+        if _custom_truth(_real_class(t.cls, ref=True)):
+            raise Unsupported(f"truthiness of {t.cls}: the class defines __bool__/__len__ (declare ops.REC_TRUTHY[{t.cls!r}])")
         return z3.BoolVal(True)
     if isinstance(t, TRec):
         hook = REC_TRUTHY.get(t.name)
         if hook:
             return hook(v)
+        if _custom_truth(_real_class(getattr(t, "cls", None), ref=False)):
+            raise Unsupported(f"truthiness of {t.name}: the class defines __bool__/__len__ (declare ops.REC_TRUTHY[{t.name!r}])")
         return z3.BoolVal(True)
     if isinstance(t, TTuple):
         return z3.BoolVal(len(t.elems) > 0)
@@ -198,6 +214,31 @@ def truthy(v):
 
 
 REC_TRUTHY: dict = {}
+
+
+def _real_class(key, ref):
+    try:
+        if ref:
+            from .exec import CLASS_OBJ
+            return CLASS_OBJ.get(key)
+        if key is None:
+            return None
+        from .exec import resolve_class
+        return resolve_class(key)
+    except Exception:
+        return None
+
+
+def _custom_truth(cls) -> bool:
+    """does the real class give its instances a truth value other than `always true`?"""
+    if cls is None or not isinstance(cls, type):
+        return False
+    for k in cls.__mro__:
+        if k in (object, tuple, dict, BaseException, Exception):
+            continue
+        if "__bool__" in k.__dict__ or "__len__" in k.__dict__:
+            return True
+    return False
 
 
 def is_none(v):
@@ -375,6 +416,8 @@ def constrain_bounded(v: V, st):
     if b is None:
         return
     t = v.ty
+    if is_str(t) and t.view == "native" and MODE.get("free_native_str"):
+        return
     if isinstance(t, TList) or is_str(t):
         st.assume(seq_len(v) <= b)
 
